@@ -6,34 +6,42 @@ from .driver import drive
 RUNS = {'quick': 6000, 'thorough': 150000}
 
 RULE = (
-    'One evaluation = one simulated history: 40-80 steps (plus macro '
-    'sequences) over a pool of 6 or 10 OBDD slots and 2 or 3 variable '
-    'orderings of a universe of 4, 5 or 6 variables, drawn from the run PRNG '
-    '(swarm configuration per run: universe, variables used, expression '
-    'depth, drop/deferred-drop/gc weights, mid-operation GC probability and '
-    'mode (k-th line event, every k-th, j-th line inside a chosen function), '
-    'allocation churn, user errors whose exception objects are held for a '
-    'while, left-operand reuse).  After every step J1 (== <=> same root <=> same '
-    'model truth table, for every pair of live slots with one ordering), '
-    'J3 (no two live non-terminal nodes with one (var, low, high), none with '
-    'low is high; scanned through gc.get_objects() and BDDNode.nodes()) and '
-    'J4 (terminal singletons) are checked; J2 (diagram evaluates to the model '
-    'truth table on all 2**n assignments) is evaluated and a mismatch is '
-    'turned into a J1 witness against the parsed sum-of-products.  A history '
-    'is NON-TRIVIAL when it contains >=1 combine, >=1 drop (either kind), '
-    '>=1 collector run (between or inside operations) and >=1 pair of live '
-    'slots that reached one function by different construction routes; '
-    'DISTINCT = distinct sha256 digests of the event log (operation kinds, '
-    'per-slot model truth tables, equality matrix and live-node count after '
-    'every step).')
+    'One evaluation = one simulated history: 40-80 steps (180-300 in crowd '
+    'mode, plus macro sequences) over a pool of OBDD slots (6, 10, or '
+    'universe+20..40 in crowd mode) and 2 or 3 variable orderings of a '
+    'universe of 4, 5, 6, 9, 12, 40, 80 or 120 variables, drawn from the run '
+    'PRNG (swarm configuration per run: universe, variables per expression, '
+    'expression depth, drop/deferred-drop/gc weights, mid-operation GC '
+    'probability and mode (k-th line event, every k-th, j-th line inside a '
+    'function chosen at run time), allocation churn, user errors whose '
+    'exception objects are held for a while, left-operand reuse, ordering '
+    'storms, crowd mode with an initial one-diagram-per-variable sweep).  '
+    'The reference model is a sparse truth table per slot (essential support '
+    '+ table over the support, normal form).  After every step: J1 (== <=> '
+    'same root <=> same model function) for every pair of live slots with '
+    'one ordering that involves the slot written by the step - for every '
+    'pair when <=12 slots are live, every 25th step and at the end; J3 (no '
+    'two live non-terminal nodes with one (var, low, high), none with low is '
+    'high; gc.get_objects() scan every step, BDDNode.nodes() scan on full '
+    'checks) and J4 (terminal singletons); J2 (the diagram evaluates to the '
+    'model on every assignment of the support, a fixed sample of 66 '
+    'assignments above 7 variables) is evaluated for the written slot and a '
+    'mismatch is turned into a J1 witness against the parsed '
+    'sum-of-products.  A history is NON-TRIVIAL when it contains >=1 '
+    'combine, >=1 drop (either kind), >=1 collector run (between or inside '
+    'operations) and >=1 pair of live slots that reached one function by '
+    'different construction routes; DISTINCT = distinct sha256 digests of '
+    'the event log (operation kind, written slot and its model function, '
+    'equality results, live slot and node counts after every step).')
 
 ASSUMPTIONS = [
     'CPython 3.12 reference counting + cyclic collector; automatic GC is '
     'disabled and every collection is issued by the simulator',
     'mid-operation collections land on line events of Python frames in '
     'BDD.py, OBDD.py and _weakrefset.py (not inside C calls)',
-    'the truth-table model (2**n-bit integers, n<=6) and the diagram walker '
-    'are trusted; <=6 variables, expression depth <=3',
+    'the sparse truth-table model (operations whose result would depend on '
+    'more than 10 variables are skipped) and the diagram walker are '
+    'trusted; expression depth <=3',
     'sampling, not enumeration: a clean batch is evidence, not proof',
 ]
 
